@@ -21,7 +21,8 @@ SCENARIOS = [
 SWEEP_FOR = [
     (('stats.', 'levmar.solver.fit_with_statistics'), [['stats_sweep'], ['nonfinite_derivative_stats']]),
     (('levmar.', 'util.'), [['algebra_sweep']]),
-    (('model.', 'mbuilder.', 'fbuilder.', 'detail.', 'mbf.'), [['model_sweep']]),
+    (('model.',), [['model_sweep'], ['algebra_sweep']]),   # the problem-level sweeps run on builder-made models
+    (('mbuilder.', 'fbuilder.', 'detail.', 'mbf.'), [['model_sweep']]),
 ]
 
 
